@@ -479,6 +479,8 @@ class Script:
         """
         pos = (line, column)
         leaf = self._module_node.get_leaf_for_position(pos, include_prefixes=True)
+        # The indentation only decides about positions that are not on code.
+        on_code = leaf.start_pos <= pos and leaf.type not in ('newline', 'endmarker')
         if leaf.start_pos > pos or leaf.type == 'endmarker':
             previous_leaf = leaf.get_previous_leaf()
             if previous_leaf is not None:
@@ -508,7 +510,7 @@ class Script:
                 if scope.parent.type in ('async_stmt', 'async_funcdef'):
                     # An async function starts at its `async` keyword.
                     scope = scope.parent
-                if scope.start_pos[1] < column:
+                if on_code or scope.start_pos[1] < column:
                     break
             definition = definition.parent()
         return definition
